@@ -19,12 +19,12 @@ LEVEL = "exploration"
 TECHNIQUE = "response-history checker under a controlled line-level scheduler (systematic schedules up to a preemption bound)"
 RULE = ("(enumeration modes: all1 = one preemption at every yield point; lock2 = two preemptions, both at lock-related lines or at a handler's run_step call; all2 = two preemptions anywhere) request kinds {run-step, run-steps(2), run-steps(3), stream-steps, stream-steps aborted by the client after the first chunk, "
         "run-steps whose settings make a step raise, stream-steps closed before the first chunk}; all 28 unordered pairs in modes all1+lock2 (thorough: also all2) and 4 triples (thorough: all 84) in mode lock2; "
-        "real locks of the instance are replaced by scheduler-aware locks; fresh instance and session per schedule. "
+        "real locks of the instance are replaced by scheduler-aware locks; fresh instance and session per schedule. Plus, without scheduler, one client thread that reads a stream-steps response (with / without a body) lazily and sends run-step / run-steps / stream-steps (with and without a body) / an aborted stream between two of its chunks: all of them must be refused, the stream stays consecutive. "
         "distinct_nontrivial = distinct (request-kind combination, schedule) in which the second request observed the session between the "
         "first request's lock test and its last step (i.e. the check/lock window was entered).")
 ASSUMPTIONS = ["preemption at line boundaries of source-selected yield points only (no preemption inside a line)", "<=3 concurrent requests, Flask test client instead of a socket server",
                "a refused request (instance locked) is a correct outcome; the property constrains successful responses and the final state"]
-REQUIRED = {"schedules": 150, "schedules_with_preemption": 100, "yield_points_hit": 3000, "window_entered": 20}
+REQUIRED = {"same_thread_sequences": 30, "schedules": 150, "schedules_with_preemption": 100, "yield_points_hit": 3000, "window_entered": 20}
 BUDGET_S = {"quick": 115, "thorough": 2400}
 
 KINDS = ["step", "steps2", "steps3", "stream", "abort", "error", "abort0"]
@@ -47,6 +47,14 @@ def gen_cases(tier, seed):
     triples = [(k["abort"], k["step"], k["steps3"]), (k["stream"], k["step"], k["steps2"]), (k["abort0"], k["steps2"], k["step"]), (k["steps2"], k["steps2"], k["step"])]
     if tier == "thorough":
         triples = list(itertools.combinations_with_replacement(range(len(KINDS)), 3)) + triples
+    # one client thread: a stream-steps response is read lazily and other step requests are sent between two of its chunks
+    others = ["step", "step-nobody", "steps2", "stream", "stream-nobody", "abort"]
+    for a in ("stream", "stream-nobody"):
+        for k_read in (1, 2, 4):
+            for b in others:
+                cases.append(dict(mode="samethread", first=a, read=k_read, between=[b], seed=seed))
+            for b1, b2 in (("step", "steps2"), ("stream-nobody", "step"), ("steps2", "stream"), ("step-nobody", "step-nobody"), ("abort", "step")):
+                cases.append(dict(mode="samethread", first=a, read=k_read, between=[b1, b2], seed=seed))
     K3 = 16
     for t in triples:
         for r in range(K3):
@@ -249,10 +257,103 @@ def judge(kinds, out, calls, follow, final_clock):
     return None
 
 
+def run_samethread(case, counters):
+    """No scheduler: one thread opens a stream-steps response, reads `read` chunks, sends the `between` requests, reads the rest."""
+    from vlib import srv
+    from BPTK_Py.bptk import bptk as B
+    app = srv.make_server(srv.bptk_factory(start=START, stop=STOP, dt=DT))
+    c = app.test_client()
+    iid = json.loads(c.post("/start-instance", json={}).get_data(as_text=True))["instance_uuid"]
+    c.post("/%s/begin-session" % iid, json={"scenario_managers": [srv.MG], "scenarios": [srv.SC], "equations": ["stock", "rate"]})
+    inst = app._instance_manager._instances[iid]["instance"]
+    calls, cur = [], [0]
+    orig = B.run_step
+
+    def run_step(self, *a, **k):
+        before = self.session_state["step"] if self.session_state else None
+        ok = False
+        try:
+            r = orig(self, *a, **k)
+            ok = not (isinstance(r, dict) and "msg" in r)
+            return r
+        finally:
+            calls.append((cur[0], before, self.session_state["step"] if self.session_state else None, ok))
+    B.run_step = run_step
+    out = {}
+    kinds = ["stream"] + [("step" if b.startswith("step-") or b == "step" else "stream" if b.startswith("stream") else b) for b in case["between"]]
+    try:
+        cur[0] = 0
+        kw = {"json": {"settings": {}}} if case["first"] == "stream" else {}
+        r = c.post("/%s/stream-steps" % iid, buffered=False, **kw)
+        chunks, it = [], iter(r.response)
+        try:
+            for _ in range(1 + 2 * case["read"] - 1):       # "[", step, ",", step, ...
+                chunks.append(next(it))
+        except StopIteration:
+            pass
+        for j, b in enumerate(case["between"], 1):
+            cur[0] = j
+            if b == "step":
+                rb = c.post("/%s/run-step" % iid, json={"settings": {}})
+            elif b == "step-nobody":
+                rb = c.post("/%s/run-step" % iid)
+            elif b == "steps2":
+                rb = c.post("/%s/run-steps" % iid, json={"numberSteps": 2, "settings": {}})
+            elif b == "stream":
+                rb = c.post("/%s/stream-steps" % iid, json={"settings": {}})
+            elif b == "stream-nobody":
+                rb = c.post("/%s/stream-steps" % iid)
+            else:   # abort: a second stream, one step read, then closed
+                rb = c.post("/%s/stream-steps" % iid, json={"settings": {}}, buffered=False)
+                part, it2 = [], iter(rb.response)
+                try:
+                    for _ in range(3):
+                        part.append(next(it2))
+                except StopIteration:
+                    pass
+                rb.close()
+                out[j] = ("abort", rb.status_code, b"".join(x if isinstance(x, bytes) else x.encode() for x in part).decode() + "<aborted>")
+                continue
+            out[j] = (kinds[j], rb.status_code, rb.get_data(as_text=True))
+        cur[0] = 0
+        try:
+            for ch in it:
+                chunks.append(ch)
+        except Exception as e:
+            chunks.append(("<stream failed: %r>" % e).encode())
+        r.close()
+        out[0] = ("stream", r.status_code, b"".join(x if isinstance(x, bytes) else x.encode() for x in chunks).decode())
+        cur[0] = -1
+        follow = c.post("/%s/run-step" % iid, json={"settings": {}})
+        follow = (follow.status_code, follow.get_data(as_text=True)[:200])
+        final_clock = inst.session_state["step"] if inst.session_state else None
+    finally:
+        B.run_step = orig
+        srv.destroy_server(app)
+    counters["same_thread_sequences"] = counters.get("same_thread_sequences", 0) + 1
+    kidx = [KINDS.index(k) for k in kinds]
+    w = judge(kidx, out, calls, follow, final_clock)
+    if w is None and out[0][1] == 200:
+        # while the first stream is unfinished every other stepping request must have been refused
+        for j in range(1, len(kinds)):
+            t = parse_steps(out[j][0], out[j][1], out[j][2])
+            if t:
+                w = dict(kind="admitted-while-stream-in-progress", request=case["between"][j - 1], times=t)
+                break
+    if w is not None:
+        w.update(case=case, responses={str(i): (out[i][0], out[i][1], out[i][2][:200]) for i in out}, follow=follow, calls=calls)
+    return w
+
+
 def run_case(case):
     from vlib.linesched import alternatives
     import random
     counters = {}
+    if case.get("mode") == "samethread":
+        w = run_samethread(case, counters)
+        if w is not None:
+            return dict(verdict="violated", counters=counters, mech=w["kind"] + ":same-thread", witness=w)
+        return dict(verdict="held", counters=counters, sample=dict(case=case))
     kinds = case["kinds"]
     nts = []
     rng = random.Random(hash((tuple(kinds), case["stride"], case["seed"])) & 0xffffff)
